@@ -11,6 +11,24 @@ type ExprOpts struct {
 	UnknownPct int // percent of leaves on a column that occurs in no row (0 = never)
 	MaxDepth   int
 	MaxArity   int
+	// AllowEmpty lets Confuse put operator nodes WITHOUT operands into an
+	// expression.  What such a node means is not covered by the counting model
+	// (it follows the library), so only checks whose oracle is another run of
+	// the library (with/without cache, before/after, local/remote) may set it.
+	AllowEmpty bool
+}
+
+// HasEmptyNode reports whether e contains an AND/OR node without operands.
+func HasEmptyNode(e model.Expr) bool {
+	if (e.Op == model.OpAnd || e.Op == model.OpOr) && len(e.Subs) == 0 {
+		return true
+	}
+	for _, s := range e.Subs {
+		if HasEmptyNode(s) {
+			return true
+		}
+	}
+	return false
 }
 
 // LeafPool prepares leaf candidates from a dataset.
@@ -77,11 +95,29 @@ func (p *LeafPool) Expr(t *rapid.T, o ExprOpts) model.Expr {
 	switch rapid.IntRange(0, 19).Draw(t, "shape") {
 	case 2: // wide node: operand counts around typical buffer sizes
 		n := rapid.SampledFrom([]int{6, 7, 8, 9, 15, 16, 17, 31, 32, 33, 40}).Draw(t, "wide")
-		subs := make([]model.Expr, n)
-		for i := range subs {
-			subs[i] = p.Leaf(t, o)
-			if rapid.IntRange(0, 4).Draw(t, "widenot") == 0 {
-				subs[i] = model.Not(subs[i])
+		var subs []model.Expr
+		if rapid.IntRange(0, 11).Draw(t, "verywide") == 0 {
+			// a value list of the kind an IN (...) is written as: hundreds of
+			// operands, made of a few drawn leaves in rotation
+			n = rapid.SampledFrom([]int{63, 64, 65, 127, 128, 129, 255, 256, 257, 1000, 1001, 1024, 1025, 1500}).Draw(t, "verywiden")
+			base := make([]model.Expr, rapid.IntRange(2, 6).Draw(t, "nbase"))
+			for i := range base {
+				base[i] = p.Leaf(t, o)
+				if rapid.IntRange(0, 4).Draw(t, "widenot") == 0 {
+					base[i] = model.Not(base[i])
+				}
+			}
+			subs = make([]model.Expr, n)
+			for i := range subs {
+				subs[i] = base[i%len(base)]
+			}
+		} else {
+			subs = make([]model.Expr, n)
+			for i := range subs {
+				subs[i] = p.Leaf(t, o)
+				if rapid.IntRange(0, 4).Draw(t, "widenot") == 0 {
+					subs[i] = model.Not(subs[i])
+				}
 			}
 		}
 		if rapid.Bool().Draw(t, "wideop") {
@@ -164,6 +200,22 @@ func (p *LeafPool) Confuse(t *rapid.T, pool []model.Expr, o ExprOpts) model.Expr
 		return pool[rapid.IntRange(0, len(pool)-1).Draw(t, label)]
 	}
 	e := pick("base")
+	if o.AllowEmpty && rapid.IntRange(0, 7).Draw(t, "emptynode") == 0 {
+		// an operand list extended by an operator node without operands, next to
+		// the same list without it: identical unless somebody flattens or skips
+		empty := model.Expr{Op: rapid.SampledFrom([]int{model.OpAnd, model.OpOr}).Draw(t, "emptyop")}
+		if e.Op == model.OpAnd || e.Op == model.OpOr {
+			subs := append(append([]model.Expr(nil), e.Subs...), empty)
+			if rapid.Bool().Draw(t, "emptyfirst") {
+				subs = append([]model.Expr{empty}, e.Subs...)
+			}
+			return model.Expr{Op: e.Op, Subs: subs}
+		}
+		if rapid.Bool().Draw(t, "emptywrap") {
+			return model.And(e, empty)
+		}
+		return model.Or(e, empty)
+	}
 	switch rapid.IntRange(0, 11).Draw(t, "confuser") {
 	case 0: // x&x
 		return model.And(e, e)
